@@ -31,6 +31,14 @@ CLAIMS = {
   "Storage-error typestate and read-only frames: every storage/cursor operation requires that no earlier one failed and records a failure in ghost state; the plan functions under contract are proved to return that error unchanged, to issue no further storage call after it (precondition obligations at every call site), and - for scans, filter and limit plans - to have no mutating call in their frame.",
   TRUST + "Covers the put/remove/delete plans, limit plans, row-mode scans, filter and buildDeletePlan; ProjectionPlan, FinalOrderPlan, AggregatePlan, batch-mode scans and buildPlan are not yet under contract for this property.",
   "DESIGN.md section 5, C13"),
+ "C06": ("proof",
+  "Panic-freedom of every function that any property puts under contract: one automatically generated obligation per run-time-panic site of the go/ssa form (nil dereference, index / slice bounds, unchecked type assertion, division by zero, nil-map write, negative make, explicit panic), discharged for all inputs from the function's contract; termination where a decreases clause is given.",
+  TRUST + "Not the whole-program statement: functions not yet under contract (parser, checker, lexer, scalar functions, order and aggregate plans, error rendering) are outside this check, as are stack depth and standard-library panics. Preconditions are established by callers only where the callers are under contract.",
+  "DESIGN.md section 5, C06"),
+ "C19": ("other",
+  "Frame (ownership) theorem over the whole package, decided syntactically on the go/ssa form: outside init / AddScalarFunction / AddAggrFunction no instruction writes a package-level variable or memory reachable from one (taint fixpoint with interprocedural return / parameter-write summaries). Statements that own their plan, AST and context then share only memory nobody writes, which excludes data races under every schedule; no schedule is explored.",
+  "Assumes a thread-safe Storage, no concurrent registration or change of the package switches, and per-statement instances of stdlib objects. Writes performed inside dynamically dispatched callees through a shared ARGUMENT are not followed (writes to globals inside any analysed function are). A lock-protected global would be reported although harmless (stated limit).",
+  "DESIGN.md section 5, C19"),
 }
 
 NA_PENDING = "not yet claimed in this session: the contracts for this property are still being written (see DESIGN.md section 5 for the plan)"
